@@ -26,7 +26,7 @@ func init() { core.Register(c17{}) }
 func (c17) ID() string    { return "C17" }
 func (c17) Level() string { return "fault_enumeration" }
 func (c17) Rule() string {
-	return "changelogs generated from an entry-list model (1..6 entries; versions from the version grammar; 1..3 distributions; 1..3 key=value options; bodies with leading/inner/trailing blank lines, bullets, deeper indentation; maintainers without double spaces; zone offsets -1200..+1400 incl. +0530; blank-line runs 1..3 between entries and at the start; final newline present or absent) must parse (Parse, and ParseOne in sequence) to exactly the model: count, order, Source, Version, Target, Arguments, verbatim body, ChangedBy, When (instant and zone offset). Fault enumeration: EVERY prefix of each of a set of changelogs: a prefix that ends between entries must give exactly the complete entries without error; one that ends inside an entry must give an error (or, when only the entry's final newline is missing, that entry too) - never a silently shortened list. Malformed headers/trailers/dates must give an error. Non-trivial = changelog with >= 2 entries, every prefix inside an entry, every malformed case; distinct by hash."
+	return "changelogs generated from an entry-list model (1..6 entries; versions from the version grammar; 1..3 distributions; 1..3 key=value options; bodies with leading/inner/trailing blank lines and lines of blanks/tabs/CR only, bullets, deeper indentation; maintainers without double spaces; zone offsets -1200..+1400 incl. +0530; blank-line runs 1..3 between entries and at the start; final newline present or absent) must parse (Parse, and ParseOne in sequence) to exactly the model: count, order, Source, Version, Target, Arguments, verbatim body, ChangedBy, When (instant and zone offset). Fault enumeration: EVERY prefix of each of a set of changelogs: a prefix that ends between entries must give exactly the complete entries without error; one that ends inside an entry must give an error (or, when only the entry's final newline is missing, that entry too) - never a silently shortened list; the same for a source that fails with a non-EOF read error after k bytes (every entry boundary +-1 and random k). Malformed headers/trailers/dates must give an error. Non-trivial = changelog with >= 2 entries, every prefix inside an entry, every malformed case; distinct by hash."
 }
 func (c17) Assumptions() []string {
 	return []string{"Target is compared after splitting on blanks", "CRLF changelogs are not generated"}
@@ -46,7 +46,7 @@ func (c17) Batches(tier string, seed uint64) []core.Batch {
 func (c17) Mandatory(tier string) []string {
 	return []string{"full:entries>=2", "full:no-final-newline", "full:leading-blank-lines", "full:multi-distribution", "full:multi-option", "full:zone-half-hour", "full:zone-negative",
 		"prefix:between-entries", "prefix:in-header", "prefix:in-body", "prefix:in-trailer", "prefix:missing-only-final-newline", "prefix:empty", "outcome:error", "outcome:entries",
-		"malformed:version", "malformed:no-date", "malformed:month", "malformed:column0-body", "malformed:no-trailer", "malformed:indented-header", "full:line>=4096-bytes", "path:Parse", "path:ParseOne", "path:ParseOne-16-byte-reader", "path:ParseFile", "path:Parse-onebyte-reader", "path:Parse-data+EOF-reader", "full:entry-without-options"}
+		"malformed:version", "malformed:no-date", "malformed:month", "malformed:column0-body", "malformed:no-trailer", "malformed:indented-header", "full:line>=4096-bytes", "path:Parse", "path:ParseOne", "path:ParseOne-16-byte-reader", "path:ParseFile", "path:Parse-onebyte-reader", "path:Parse-data+EOF-reader", "path:Parse-failing-source", "full:entry-without-options", "full:body-line-of-blanks-only"}
 }
 
 type clEntry struct {
@@ -133,7 +133,8 @@ func genChangelog(r *core.Rand, maxEntries int) clDoc {
 		for k := r.Range(1, 5); k > 0; k-- {
 			switch r.Intn(5) {
 			case 0:
-				body.WriteString("\n")
+				// separator lines as editors leave them: empty, or blanks only
+				body.WriteString(r.Pick([]string{"\n", "\n", "  \n", " \n", "\t\n", "   \t \n", " \r\n"}))
 			case 1:
 				l := gen.ValueLine(r)
 				if len(l) > 40 {
@@ -212,6 +213,23 @@ func diffEntryRest(g changelog.ChangelogEntry, w clEntry) string {
 		return fmt.Sprintf("When %v (offset %d), want %v (offset %d)", g.When, go1, wt, wo)
 	}
 	return ""
+}
+
+// failingReader delivers s and then fails with an error that is not io.EOF.
+type failingReader struct {
+	s   string
+	off int
+}
+
+var errInjectedRead = fmt.Errorf("injected read error (harness)")
+
+func (f *failingReader) Read(p []byte) (int, error) {
+	if f.off >= len(f.s) {
+		return 0, errInjectedRead
+	}
+	n := copy(p, f.s[f.off:])
+	f.off += n
+	return n, nil
 }
 
 func parseOneLoop(text string) ([]changelog.ChangelogEntry, error) {
@@ -295,6 +313,37 @@ func (p c17) full(c *core.C, d clDoc) {
 			}
 		}
 	}
+	// a source that fails with a real I/O error (not io.EOF) after k bytes: Parse must report an
+	// error or return every entry - never a silently shortened list. k ranges over every entry
+	// boundary and a few other offsets.
+	_, starts, ends := d.render()
+	fr := core.NewRand(uint64(len(text)), "c17-failing-source")
+	ks := append(append([]int{0, len(text)}, starts...), ends...)
+	for i := 0; i < 4; i++ {
+		ks = append(ks, fr.Intn(len(text)+1))
+	}
+	for _, e := range ends {
+		ks = append(ks, e+1, e-1)
+	}
+	for _, k := range ks {
+		if k < 0 || k > len(text) {
+			continue
+		}
+		for _, size := range []int{0, 16} {
+			var src io.Reader = &failingReader{s: text[:k]}
+			if size > 0 {
+				src = bufio.NewReaderSize(src, size)
+			}
+			g, err := changelog.Parse(src)
+			if err == nil && len(g) != len(d.Entries) {
+				c.Failf("Parse over a source that fails with an I/O error after %d of %d bytes returned %d of %d entries and no error\nchangelog: %q", k, len(text), len(g), len(d.Entries), text)
+			}
+			if err != nil && g != nil && len(g) > 0 {
+				c.Failf("Parse returned both %d entries and an error (%v) over a failing source", len(g), err)
+			}
+		}
+		c.Cover("path:Parse-failing-source")
+	}
 	if len(d.Entries) >= 2 {
 		c.Cover("full:entries>=2")
 		c.Nontrivial()
@@ -312,6 +361,11 @@ func (p c17) full(c *core.C, d clDoc) {
 		for _, l := range strings.Split(e.Body, "\n") {
 			if len(l) >= 4096 {
 				c.Cover("full:line>=4096-bytes")
+			}
+		}
+		for _, l := range strings.Split(e.Body, "\n") {
+			if l != "" && strings.Trim(l, " \t\r") == "" {
+				c.Cover("full:body-line-of-blanks-only")
 			}
 		}
 		if len(e.Dists) > 1 {
